@@ -74,3 +74,16 @@ PROPS['C16'] = dict(
              'four forwarders wired (src, tgt, from_proxy)': 'P (finite)',
              'agent advances forwarded by default, client not': 'P (finite)',
              'ZeroMQ delivery': 'A'})
+
+PROPS['C19'] = dict(
+    level='other',
+    claim='TaskDescription._verify: every deprecated attribute is carried over to its replacement with the same value and cleared, mode requirements raise exactly when the required attribute is missing, the result is a normal form and a fixpoint (idempotence lemma); all obligations discharged. The as_dict()/constructor round trip and the function-payload encoding live in radical.utils / dill and are not decided here',
+    note='slot format conversions and the dill/msgpack payload round trip are not yet under contract',
+    assumptions=['A1', 'A2', 'A11'],
+    explanation='alias + normal-form + fixpoint postconditions on the real _verify, idempotence as a lemma over the contract; ru.TypedDict attribute semantics (self.x is self["x"]) assumed',
+    trusted_base=['ru.TypedDict (radical.utils): attribute access equals item access; as_dict/constructor round trip'],
+    clauses={'deprecated names mapped with the same value and cleared': 'P',
+             'mode requirements enforced': 'P', 'idempotent': 'P',
+             'dict round trip (ru.TypedDict)': 'A',
+             'function payload encode/decode (dill)': 'N',
+             'slot format conversion': 'not yet built'})
